@@ -267,6 +267,8 @@ pub fn gen_libpar(r: &mut Rng, idx: usize) -> LibCase {
             }
             parent.with_hash_threshold(2);
             parent.add_label("PL");
+            // the parent's own `__DATABASE__` (the CLI binds it on every runner) is not the files'
+            parent.set_var("__DATABASE__".to_string(), MGMT.to_string());
             let res = parent.run_parallel_async(&glob, vec!["h".into()], lib_builder, jobs).await;
             parent.shutdown_async().await;
             res.is_ok()
